@@ -42,9 +42,33 @@ theorem joinAndLeave_zero (env : Env) (states : Json) (name : Str) (state data c
 theorem runBranches_zero (env : Env) (bs : List Json) (params ctx : Json) (st : St) :
     runBranches env 0 bs params ctx st = (.error .fuel, st) := by simp [runBranches]
 
-theorem runItems_zero (env : Env) (proc : Json) (sel : Option Json) (input : Json) (items : List Json) (i : Nat)
-    (ctx : Json) (st : St) :
-    runItems env 0 proc sel input items i ctx st = (.error .fuel, st) := by simp [runItems]
+theorem runItems_zero (env : Env) (proc : Json) (sel : Option Json) (input : Json) (items : List Json) (i mc : Nat)
+    (be : Rat) (ctx : Json) (st : St) :
+    runItems env 0 proc sel input items i mc be ctx st = (.error .fuel, st) := by simp [runItems]
+
+/-- fuel exhaustion of a branch, or of the later branches, is fuel exhaustion of the fan-out -/
+theorem fanCombine_fuel_left (t : Rat) (rest : Except Res (List Json)) (st2 : St) (tOk : Rat) :
+    (fanCombine .fuel t rest st2 tOk).1 = .error .fuel := by
+  rcases rest with a | vs
+  · cases a <;> rfl
+  · rfl
+
+/-- the fan-out succeeds only if this branch and all later ones did -/
+theorem fanCombine_ok {r : Res} {t : Rat} {rest : Except Res (List Json)} {st2 st' : St} {tOk : Rat} {vs : List Json}
+    (h : fanCombine r t rest st2 tOk = (.ok vs, st')) :
+    ∃ v vs', r = .done v ∧ rest = .ok vs' ∧ vs = v :: vs' ∧ st' = st2.at tOk := by
+  unfold fanCombine at h
+  split at h
+  · rename_i v vs'
+    simp only [Prod.mk.injEq, Except.ok.injEq] at h
+    exact ⟨v, vs', rfl, rfl, h.1.symm, h.2.symm⟩
+  all_goals (try split at h)
+  all_goals (try split at h)
+  all_goals simp at h
+
+theorem fanCombine_fuel_right (r : Res) (t : Rat) (st2 : St) (tOk : Rat) :
+    (fanCombine r t (.error .fuel) st2 tOk).1 = .error .fuel := by
+  cases r <;> rfl
 
 /-- a fan-out that ran out of fuel makes the fan-out state run out of fuel -/
 theorem joinAndLeave_fuel (env : Env) (k : Nat) (states : Json) (name : Str) (state data ctx : Json)
@@ -163,13 +187,13 @@ theorem joinAfter_step
 set_option hygiene false in
 local macro "auto_step" : tactic => `(tactic|
   repeat' (first
+    | split
     | exact hH _ _ _ _ _ _ _ _
     | exact hL _ _ _ _ _ _ _
     | exact hF _ _ _ _ _
     | exact joinAfter_step env n states hJ _ _ _ _ _ _ _ (hB (by assumption) _ _ _ _)
-    | exact joinAfter_step env n states hJ _ _ _ _ _ _ _ (hI (by assumption) _ _ _ _ _ _ _)
-    | (intro _; trivial)
-    | split))
+    | exact joinAfter_step env n states hJ _ _ _ _ _ _ _ (hI (by assumption) _ _ _ _ _ _ _ _ _)
+    | (intro _; trivial)))
 
 theorem runState_step (state : Json)
     (hF : ∀ name data ctx retries st,
@@ -190,9 +214,9 @@ theorem runState_step (state : Json)
     (hB : stateType state = S "Parallel" → ∀ bs params ctx st,
       (runBranches env n bs params ctx st).1 ≠ Except.error Res.fuel →
       runBranches env (n + 1) bs params ctx st = runBranches env n bs params ctx st)
-    (hI : stateType state = S "Map" → ∀ proc sel input items i ctx st,
-      (runItems env n proc sel input items i ctx st).1 ≠ Except.error Res.fuel →
-      runItems env (n + 1) proc sel input items i ctx st = runItems env n proc sel input items i ctx st)
+    (hI : stateType state = S "Map" → ∀ proc sel input items i mc be ctx st,
+      (runItems env n proc sel input items i mc be ctx st).1 ≠ Except.error Res.fuel →
+      runItems env (n + 1) proc sel input items i mc be ctx st = runItems env n proc sel input items i mc be ctx st)
     (name : Str) (data ctx : Json) (retries : Nat) (st : St) :
     (runState env (n + 1) states name state data ctx retries st).1 ≠ Res.fuel →
     runState env (n + 1 + 1) states name state data ctx retries st =
@@ -254,20 +278,16 @@ theorem runBranches_step (env : Env) (n : Nat)
       cases hr : runFrom env n states start params ctx 0 st with
       | mk r1 s1 =>
         rw [hr] at h
-        cases hrest : runBranches env n bs params ctx s1 with
+        cases hrest : runBranches env n bs params ctx (s1.at st.clock) with
         | mk rest s2 =>
           simp only [hrest] at h
           have hr1 : r1 ≠ Res.fuel := by
-            intro e; subst e; apply h
-            rcases rest with a | vs
-            · cases a <;> rfl
-            · rfl
+            intro e; subst e; exact h (fanCombine_fuel_left _ _ _ _)
           have hrest1 : rest ≠ Except.error Res.fuel := by
-            intro e; subst e; apply h
-            cases r1 <;> rfl
+            intro e; subst e; exact h (fanCombine_fuel_right _ _ _ _)
           have e1 := hF states start params ctx 0 st (by rw [hr]; exact hr1)
           rw [e1, hr]
-          have e2 := hB bs params ctx s1 (by rw [hrest]; exact hrest1)
+          have e2 := hB bs params ctx (s1.at st.clock) (by rw [hrest]; exact hrest1)
           simp only [e2, hrest]
     · intro _; trivial
 
@@ -275,13 +295,13 @@ theorem runItems_step (env : Env) (n : Nat)
     (hF : ∀ states name data ctx retries st,
       (runFrom env n states name data ctx retries st).1 ≠ Res.fuel →
       runFrom env (n + 1) states name data ctx retries st = runFrom env n states name data ctx retries st)
-    (hI : ∀ proc sel input items i ctx st,
-      (runItems env n proc sel input items i ctx st).1 ≠ Except.error Res.fuel →
-      runItems env (n + 1) proc sel input items i ctx st = runItems env n proc sel input items i ctx st)
-    (proc : Json) (sel : Option Json) (input : Json) (items : List Json) (i : Nat) (ctx : Json) (st : St) :
-    (runItems env (n + 1) proc sel input items i ctx st).1 ≠ Except.error Res.fuel →
-    runItems env (n + 1 + 1) proc sel input items i ctx st =
-      runItems env (n + 1) proc sel input items i ctx st := by
+    (hI : ∀ proc sel input items i mc be ctx st,
+      (runItems env n proc sel input items i mc be ctx st).1 ≠ Except.error Res.fuel →
+      runItems env (n + 1) proc sel input items i mc be ctx st = runItems env n proc sel input items i mc be ctx st)
+    (proc : Json) (sel : Option Json) (input : Json) (items : List Json) (i mc : Nat) (be : Rat) (ctx : Json) (st : St) :
+    (runItems env (n + 1) proc sel input items i mc be ctx st).1 ≠ Except.error Res.fuel →
+    runItems env (n + 1 + 1) proc sel input items i mc be ctx st =
+      runItems env (n + 1) proc sel input items i mc be ctx st := by
   cases items with
   | nil => intro _; simp [runItems]
   | cons item items =>
@@ -292,24 +312,23 @@ theorem runItems_step (env : Env) (n : Nat)
       split
       · rename_i start states hs hst
         intro h
-        cases hr : runFrom env n states start params ctx 0 (st.push (.iterStarted (ctxStateName ctx) i)) with
+        generalize hbs : (if mc ≠ 0 ∧ i ≠ 0 ∧ i % mc = 0 then st.waitUntil be else st) = st0 at h ⊢
+        cases hr : runFrom env n states start params ctx 0 (st0.push (.iterStarted (ctxStateName ctx) i)) with
         | mk r1 s1 =>
           rw [hr] at h
-          cases hrest : runItems env n proc sel input items (i + 1) ctx (s1.iterEnd (ctxStateName ctx) i r1) with
+          cases hrest : runItems env n proc sel input items (i + 1) mc (rmax be s1.clock) ctx
+              ((s1.iterEnd (ctxStateName ctx) i r1).at st0.clock) with
           | mk rest s2 =>
             simp only [hrest] at h
             have hr1 : r1 ≠ Res.fuel := by
-              intro e; subst e; apply h
-              rcases rest with a | vs
-              · cases a <;> rfl
-              · rfl
+              intro e; subst e; exact h (fanCombine_fuel_left _ _ _ _)
             have hrest1 : rest ≠ Except.error Res.fuel := by
-              intro e; subst e; apply h
-              cases r1 <;> rfl
-            have e1 := hF states start params ctx 0 (st.push (.iterStarted (ctxStateName ctx) i)) (by rw [hr]; exact hr1)
+              intro e; subst e; exact h (fanCombine_fuel_right _ _ _ _)
+            have e1 := hF states start params ctx 0 (st0.push (.iterStarted (ctxStateName ctx) i))
+              (by rw [hr]; exact hr1)
             rw [e1, hr]
-            have e2 := hI proc sel input items (i + 1) ctx (s1.iterEnd (ctxStateName ctx) i r1)
-              (by rw [hrest]; exact hrest1)
+            have e2 := hI proc sel input items (i + 1) mc (rmax be s1.clock) ctx
+              ((s1.iterEnd (ctxStateName ctx) i r1).at st0.clock) (by rw [hrest]; exact hrest1)
             simp only [e2, hrest]
       · intro _; trivial
 
@@ -339,9 +358,9 @@ structure StepMono (env : Env) (n : Nat) : Prop where
   runBranches : ∀ bs params ctx st,
     (runBranches env n bs params ctx st).1 ≠ Except.error Res.fuel →
     runBranches env (n + 1) bs params ctx st = runBranches env n bs params ctx st
-  runItems : ∀ proc sel input items i ctx st,
-    (runItems env n proc sel input items i ctx st).1 ≠ Except.error Res.fuel →
-    runItems env (n + 1) proc sel input items i ctx st = runItems env n proc sel input items i ctx st
+  runItems : ∀ proc sel input items i mc be ctx st,
+    (runItems env n proc sel input items i mc be ctx st).1 ≠ Except.error Res.fuel →
+    runItems env (n + 1) proc sel input items i mc be ctx st = runItems env n proc sel input items i mc be ctx st
 
 theorem stepMono (env : Env) (n : Nat) : StepMono env n := by
   induction n with
@@ -353,7 +372,7 @@ theorem stepMono (env : Env) (n : Nat) : StepMono env n := by
     · intro states name state data ctx retries st h; exact absurd (by rw [runState_zero]) h
     · intro states name state data ctx retries r st h; exact absurd (by rw [joinAndLeave_zero]) h
     · intro bs params ctx st h; exact absurd (by rw [runBranches_zero]) h
-    · intro proc sel input items i ctx st h; exact absurd (by rw [runItems_zero]) h
+    · intro proc sel input items i mc be ctx st h; exact absurd (by rw [runItems_zero]) h
   | succ n ih =>
     exact {
       runFrom := fun states => runFrom_step env n states (fun name state data ctx retries st _ =>
@@ -429,11 +448,11 @@ theorem runBranches_mono (env : Env) (n m : Nat) (h : n ≤ m) (bs : List Json) 
     (fun k => (stepMono env k).runBranches bs params ctx st) n m h
 
 theorem runItems_mono (env : Env) (n m : Nat) (h : n ≤ m) (proc : Json) (sel : Option Json) (input : Json)
-    (items : List Json) (i : Nat) (ctx : Json) (st : St) :
-    (runItems env n proc sel input items i ctx st).1 ≠ Except.error Res.fuel →
-    runItems env m proc sel input items i ctx st = runItems env n proc sel input items i ctx st :=
-  mono_of_step (fun k => runItems env k proc sel input items i ctx st) (fun x => x.1 = Except.error Res.fuel)
-    (fun k => (stepMono env k).runItems proc sel input items i ctx st) n m h
+    (items : List Json) (i mc : Nat) (be : Rat) (ctx : Json) (st : St) :
+    (runItems env n proc sel input items i mc be ctx st).1 ≠ Except.error Res.fuel →
+    runItems env m proc sel input items i mc be ctx st = runItems env n proc sel input items i mc be ctx st :=
+  mono_of_step (fun k => runItems env k proc sel input items i mc be ctx st) (fun x => x.1 = Except.error Res.fuel)
+    (fun k => (stepMono env k).runItems proc sel input items i mc be ctx st) n m h
 
 /-- the outcome of an execution does not depend on the fuel, once there is enough of it -/
 theorem runCore_mono (env : Env) (n m : Nat) (h : n ≤ m) (asl input ctx : Json) :
